@@ -28,7 +28,7 @@ ANCHORS = ["decaylanguage.dec.dec:DecFileParser._add_decays_to_be_copied", "deca
            "decaylanguage.dec.dec:DecFileParser.expand_decay_modes", "decaylanguage.dec.dec:DecFileParser.print_decay_modes"]
 WORKERS = {"quick": 8, "thorough": 16}
 REQUIRED = {**{f"op:{o}": 30 for o in OPS}, "mutated:list": 20, "mutated:dict": 20, "mutated:nested-chain": 20, "mutated:list-of-lists": 10,
-            "file:CopyDecay+CDecay": 10, "file:copy-is-cdecay-source": 5, "file:two-copies-of-one-source": 5, "copy-semantics-without-conjugates": 10, "file:first-block-is-an-alias-and-copy-source": 5, "file:alias-pair-with-changing-partner": 10, "identity-walk:derived-tables": 20, "reparse": 30, "steps-compared": 1000,
+            "file:CopyDecay+CDecay": 10, "file:copy-is-cdecay-source": 5, "file:two-copies-of-one-source": 5, "file:copy-without-source-among-other-copies": 5, "copy-semantics-without-conjugates": 10, "file:first-block-is-an-alias-and-copy-source": 5, "file:alias-pair-with-changing-partner": 10, "identity-walk:derived-tables": 20, "reparse": 30, "steps-compared": 1000,
             "exhaustive-short-histories": 100}
 EXHAUSTIVE_NOTE = "all histories of length 2 (quick) / 3 (thorough) over the 15 operation kinds on 5 fixed files"
 ASSUMPTIONS = ["grammar_info() returns the live options dict by design: it is called but never mutated", "a CopyDecay source is a Decay-block mother"]
@@ -85,6 +85,10 @@ def gen_file(ctx, fixed=None):
         if r.random() < 0.6 or fixed is not None:
             stmts += [{"k": "ChargeConj", "a": "MyCopy", "b": "MyCopybar"}, {"k": "CDecay", "name": "MyCopybar"}]
             hits.append("file:copy-is-cdecay-source")
+    if fixed is None and any(st["k"] == "CopyDecay" for st in stmts) and r.random() < 0.35:
+        # a CopyDecay whose source has no Decay block when copies are made (it exists through CDecay only, or not at all): no table for it, the others unaffected
+        stmts.insert(r.randrange(len(stmts)), {"k": "CopyDecay", "a": "MyMissing", "b": r.choice([names.conj(ms[0]), "NoSuchParticle"])})
+        hits.append("file:copy-without-source-among-other-copies")
     for m in r.sample(ms, r.choice([1, 2])):
         stmts.append({"k": "CDecay", "name": names.conj(m)})
     if any(s["k"] == "CopyDecay" for s in stmts):
